@@ -63,9 +63,9 @@ func (p Pre) String() string {
 }
 
 type Prover struct {
-	Cfg   *Config
-	Pre   map[*ssa.Function][]Pre
-	inv   map[*ssa.Phi][]phiInv
+	Cfg    *Config
+	Pre    map[*ssa.Function][]Pre
+	inv    map[*ssa.Phi][]phiInv
 	stored map[*ssa.Function]map[string]bool
 }
 
